@@ -484,7 +484,11 @@ pub mod inner {
                 h <= 1 || stride as usize <= len,
                 "stride ({stride}) > data length ({len})"
             );
-            assert!(h as usize <= len, "height ({h}) > data length ({len})");
+            // A zero-width buffer or view has no elements whatever its height
+            assert!(
+                w == 0 || h as usize <= len,
+                "height ({h}) > data length ({len})"
+            );
             if h > 0 {
                 let size = (h - 1) * stride + w;
                 assert!(
